@@ -867,7 +867,7 @@ func (x *Exec) assumeInvariants(st *St, fr *Frame, c *Contract, key string, extr
 	env := x.invEnv(st, fr, extra)
 	x.wrapCfail("invariant of "+key, func() {
 		for _, inv := range c.Invariants {
-			x.assume(st, env.Formula(inv.Expr))
+			x.assume(st, env.HypFormula(inv.Expr))
 		}
 	})
 }
